@@ -27,7 +27,7 @@ type Gate struct {
 
 	waiting  []chan struct{} // one channel per parked call, for selective release
 	inflight int             // calls inside the proxy (parked or running the delegate)
-	parked   int // calls waiting on the gate
+	parked   int             // calls waiting on the gate
 	entries  int64
 	exits    int64
 	maxIn    int
